@@ -52,11 +52,15 @@ def pin_case(draw):
             M = [detmodel._row(draw, m) for _ in range(k)]
             target = [draw(st.sampled_from(VALS)) for _ in range(k)]
             pq = [draw(st.sampled_from(PQ)) for _ in range(2)]
+            if draw(st.booleans()):
+                pq[draw(st.integers(0, 1))] = draw(st.sampled_from([(1, 1), (2, 2), (3, 3)]))      # mixed array with an exponent-one entry
             a['shape2'] = [2, 2]
             a['pshape'] = [2, 1] if mode == 'rows' else [2]
             a['p'], a['q'] = [int(v[0]) for v in pq], [int(v[1]) for v in pq]
         elif mode == 'vector' and k > 1:
             pq = [draw(st.sampled_from(PQ)) for _ in range(k)]
+            if draw(st.booleans()):
+                pq[draw(st.integers(0, k - 1))] = draw(st.sampled_from([(1, 1), (2, 2), (3, 3)]))
             a['p'], a['q'] = [int(v[0]) for v in pq], [int(v[1]) for v in pq]
         else:
             p, q = draw(st.sampled_from(PQ))
